@@ -249,6 +249,12 @@ func init() {
 			w.doAssert(s, w.concStr(a[0], "assert label"), w.term(a[1]))
 			return nil, false
 		},
+		"AssertSym": func(w *Worker, s *State, f *Frame, fn *ssa.Function, a []Value, d int) (Value, bool) {
+			// an assertion over engine-only observations (e.g. lock acquisitions): a counterexample is
+			// confirmed by re-executing the real SSA concretely, not by the native build
+			w.doAssert(s, "sym:"+w.concStr(a[0], "assert label"), w.term(a[1]))
+			return nil, false
+		},
 		"Finding": func(w *Worker, s *State, f *Frame, fn *ssa.Function, a []Value, d int) (Value, bool) {
 			s.pending = append(s.pending, findingPred{w.concStr(a[0], "finding id"), w.term(a[1])})
 			return nil, false
@@ -338,6 +344,9 @@ func init() {
 			}
 			s.ghost["clockfrozen"] = w.tc.True
 			return nil, false
+		},
+		"LockCount": func(w *Worker, s *State, f *Frame, fn *ssa.Function, a []Value, d int) (Value, bool) {
+			return w.tc.BV(64, uint64(s.lockCount)), false
 		},
 		"Prop": func(w *Worker, s *State, f *Frame, fn *ssa.Function, a []Value, d int) (Value, bool) {
 			return w.tc.Bool(len(w.cfg.Props) == 0 || w.cfg.Props[w.concStr(a[0], "property id")]), false
@@ -499,6 +508,10 @@ func init() {
 		"time.Now": func(w *Worker, s *State, f *Frame, fn *ssa.Function, a []Value, d int) (Value, bool) {
 			return timeValue(w, w.now(s)), false
 		},
+		"time.Unix": func(w *Worker, s *State, f *Frame, fn *ssa.Function, a []Value, d int) (Value, bool) {
+			sec, ns := w.term(a[0]), w.term(a[1])
+			return timeValue(w, w.tc.Add(w.tc.bvBin("bvmul", sec, w.tc.BV(64, 1000000000)), ns)), false
+		},
 		"time.Since": func(w *Worker, s *State, f *Frame, fn *ssa.Function, a []Value, d int) (Value, bool) {
 			return w.tc.Sub(w.now(s), timeNs(a[0])), false
 		},
@@ -606,6 +619,9 @@ func lockStub(delta int, kind string) stubFn {
 		p := a[0].(Ptr)
 		if p.O == nil {
 			panic(crash{"nil mutex"})
+		}
+		if delta > 0 {
+			s.lockCount++
 		}
 		key := fmt.Sprintf("%d%v", p.O.ID, p.Path)
 		switch kind {
